@@ -7,6 +7,7 @@ open C02_model
 open C02_io
 
 let big_fuel = nat_of_int 200000
+let kall = nat_of_int 20000
 
 (* ---- fields ---- *)
 let fields (ws : string list) : (string * string) list =
@@ -186,9 +187,9 @@ let eval_e2e fs =
        | None -> delivered := "NONE" :: !delivered)
     | ["I"; g; _conn; f1; l1; f2; l2] ->
       ignore (step LBegin);
-      ignore (step (LGen (gen_of g, GInit (z_of_hex f1, z_of_hex l1, z_of_hex f2, z_of_hex l2), nat_of_int 1000000)))
+      ignore (step (LGen (gen_of g, GInit (z_of_hex f1, z_of_hex l1, z_of_hex f2, z_of_hex l2), kall)))
     | ["X"; g] ->
-      ignore (step (LGen (gen_of g, GDialFail, nat_of_int 1000000)))
+      ignore (step (LGen (gen_of g, GDialFail, kall)))
     | "F" :: g :: _conn :: reqoff :: kind ->
       let gv = gen_of g in
       (match conn_off gv with
@@ -203,11 +204,11 @@ let eval_e2e fs =
         | ["t"] -> FTransport
         | ["n"] -> FNoProgress
         | _ -> failwith ("bad F token " ^ tok)) in
-      ignore (step (LGen (gv, GFetch r, nat_of_int 1000000)))
+      ignore (step (LGen (gv, GFetch r, kall)))
     | ["O"; g; _conn; "-"] ->
-      ignore (step (LGen (gen_of g, GOffsets None, nat_of_int 1000000)))
+      ignore (step (LGen (gen_of g, GOffsets None, kall)))
     | ["O"; g; _conn; f; l] ->
-      ignore (step (LGen (gen_of g, GOffsets (Some (z_of_hex f, z_of_hex l)), nat_of_int 1000000)))
+      ignore (step (LGen (gen_of g, GOffsets (Some (z_of_hex f, z_of_hex l)), kall)))
     | _ -> failwith ("bad token " ^ tok)) toks;
   stretches := (!cur_start, List.rev !cur) :: !stretches;
   (* the property predicate on what the REAL reader returned *)
